@@ -163,13 +163,15 @@ func TestC14(t *testing.T) {
 			for i := 1; i <= np; i++ {
 				b.WriteString(c14Probe(i, rapid.SampledFrom(c14Vals).Draw(rt, "v")))
 			}
+			b.WriteString("ফাংশন bump() { x = x + 10; ফেরত 1; }\nফাংশন setx(v) { x = v; ফেরত v; }\nধরি yy = 5;\nফাংশন both() { x = x * 2; yy = yy + 1; ফেরত yy; }\n")
 			next := 0
 			var gen func(d int) string
 			gen = func(d int) string {
 				if d <= 0 || next >= np-1 && rapid.Bool().Draw(rt, "stop") {
 					next++
-					if next > np {
-						return rapid.SampledFrom([]string{"1", "0", "\"s\"", "nil"}).Draw(rt, "lit")
+					if next > np || rapid.IntRange(0, 3).Draw(rt, "stateful") == 0 {
+						// bare reads of variables next to calls and assignments that change them
+						return rapid.SampledFrom([]string{"1", "0", "\"s\"", "nil", "x", "x", "yy", "bump()", "setx(3)", "both()", "(x = x + 1)", "(yy = x)"}).Draw(rt, "lit")
 					}
 					return fmt.Sprintf("t%d()", next)
 				}
@@ -193,7 +195,7 @@ func TestC14(t *testing.T) {
 				}
 			}
 			e := gen(rapid.IntRange(1, 4).Draw(rt, "depth"))
-			b.WriteString(P + " " + e + ";\n" + P + " \"end\";\n")
+			b.WriteString(P + " " + e + ";\n" + P + " [x, yy];\n" + P + " \"end\";\n")
 			pl := drawPlacement(rt)
 			c.c14Program(s, "rand-nested", place(b.String(), pl), np, false, "ctx-random", "placed-"+placementNames[pl])
 		})
